@@ -99,6 +99,12 @@ def proc_seed(seed, pid, shard, salt=""):
     return v or 1
 
 
+def replay_root():
+    if os.environ.get("VERIF_REPO"):
+        return os.path.join(WORK, "alt-replay")
+    return os.path.join(ROOT, "replay")
+
+
 def known_findings():
     p = os.path.join(ROOT, "known_findings.json")
     if not os.path.exists(p):
@@ -121,7 +127,7 @@ class Shard:
             "VERIF_NSHARDS": str(n),
             "VERIF_EV_OUT": self.frag,
             "VERIF_RACE": "1" if race else "",
-            "VERIF_REPLAY_DIR": os.path.join(ROOT, "replay", pid.lower()),
+            "VERIF_REPLAY_DIR": os.path.join(replay_root(), pid.lower()),
             "TMPDIR": self.dir,
         })
         if extra_env:
@@ -160,7 +166,7 @@ def analyse(pid, shard, rc):
     if m:
         key, msg = m.group(1), m.group(2)
     replay = None
-    rdir = os.path.join(ROOT, "replay", pid.lower())
+    rdir = os.path.join(replay_root(), pid.lower())
     os.makedirs(rdir, exist_ok=True)
     ff = FAILFILE_RE.findall(txt)
     if ff:
@@ -245,8 +251,13 @@ def merge(pid, tier, seed, cfg, frags, wall, violations, extra_cov=None):
         "wall_s": round(wall, 2),
         "violations": violations,
     }
-    os.makedirs(os.path.join(ROOT, "evidence"), exist_ok=True)
-    with open(os.path.join(ROOT, "evidence", pid + ".json"), "w") as f:
+    evdir = os.path.join(ROOT, "evidence")
+    if os.environ.get("VERIF_REPO"):
+        # sensitivity experiments against another copy of the repository never touch the evidence
+        # of the registered checks
+        evdir = os.path.join(WORK, "alt-evidence")
+    os.makedirs(evdir, exist_ok=True)
+    with open(os.path.join(evdir, pid + ".json"), "w") as f:
         json.dump(evd, f, indent=1, sort_keys=False)
         f.write("\n")
     return known_hits, cov
@@ -273,7 +284,7 @@ def run_fuzz(pid, cfg, seed):
             m = re.search(r"Failing input written to (\S+)", out)
             if m:
                 src = os.path.join(pkgdir, m.group(1)) if not os.path.isabs(m.group(1)) else m.group(1)
-                rdir = os.path.join(ROOT, "replay", pid.lower())
+                rdir = os.path.join(replay_root(), pid.lower())
                 os.makedirs(rdir, exist_ok=True)
                 crasher = os.path.join(rdir, "%s-%s.fuzz" % (name, os.path.basename(src)))
                 if os.path.exists(src):
